@@ -572,6 +572,20 @@ def _isValueOf(asn1Type, component):
 class SequenceEncoder(AbstractItemEncoder):
     omitEmptyOptionals = False
 
+    @staticmethod
+    def _encodesAsDefault(component, defaultValue, encodeFun, options):
+        if (isinstance(defaultValue, univ.SetOf) and
+                isinstance(component, (list, tuple))):
+            # the members of a SET OF come in no particular order (and
+            # this encoder does not sort them)
+            return sorted(
+                [encodeFun(member, defaultValue.componentType, **options)
+                 for member in component]) == sorted(
+                [encodeFun(member, **options) for member in defaultValue])
+
+        return (encodeFun(component, defaultValue, **options) ==
+                encodeFun(defaultValue, **options))
+
     # TODO: handling three flavors of input is too much -- split over codecs
 
     def encodeValue(self, value, asn1Spec, encodeFun, **options):
@@ -662,8 +676,8 @@ class SequenceEncoder(AbstractItemEncoder):
                 # (bytes for text, None for NULL, a mapping for a record)
                 if namedType.isDefaulted and (
                         _equalsDefault(component, namedType.asn1Object) or
-                        encodeFun(component, namedType.asn1Object, **options) ==
-                        encodeFun(namedType.asn1Object, **options)):
+                        self._encodesAsDefault(
+                            component, namedType.asn1Object, encodeFun, options)):
                     if LOG:
                         LOG('not encoding DEFAULT component %r' % (namedType,))
                     continue
